@@ -1,23 +1,25 @@
-(* C04 - SPARQL graph patterns: rdflib's top-down evaluation (model: Sparql/EvalTD.v)
-   against the bottom-up semantics of SPARQL 1.1 section 18 (Sparql/EvalBU.v).
+(* C04 - SPARQL graph patterns: rdflib's top-down evaluation (model: Sparql/EvalTD.v,
+   following /repo after the repairs a7157fc3, a24372ba, fd13260a) against the
+   bottom-up semantics of SPARQL 1.1 section 18 (Sparql/EvalBU.v).
 
    FULL STATEMENT (not a theorem - refuted below):
      forall c, spec_ok c (model_obs c) = true
    i.e. for every dataset and every algebra term the top-down evaluator returns
-   the bottom-up multiset.  The faithful model violates it in eleven syntactically
-   delimited regions (Sparql/Findings.v, kf c <> 0).  Proved: the push-down theorem
-   eval_td ctx P =perm= [mu + ctx | mu in eval_bu P, mu compatible with ctx]
+   the bottom-up multiset.  The faithful model violates it in eight syntactically
+   delimited regions (Sparql/Findings.v, kf c <> 0: findings 1-7 and 9; 8, 10, 11
+   have been repaired).  Proved: the push-down theorem
+     eval_td ctx P =perm= [mu + ctx | mu in eval_bu P, mu compatible with ctx]
    for every context on the fragment {BGP, Join (lazy and hash), LeftJoin, Union,
    Minus, Extend, Graph, Values, Filter} under syntactic side conditions that are
-   the negations of the trigger predicates of findings 1, 2, 3, 5, 6, 11 (and, for
-   expressions, a restriction to error-free filters whose variables their group
-   certainly binds, which implies the negations of 7-10) (C04_pushdown), and the
-   tie theorem on that fragment for SELECT / SELECT DISTINCT / ASK / CONSTRUCT
+   the negations of the trigger predicates of findings 1, 2, 3, 5, 6, 7, with
+   expressions restricted to those without EXISTS and without a literal-kind
+   question (finding 9) - errors are allowed (C04_pushdown), and the tie theorem
+   on that fragment for SELECT / SELECT DISTINCT / ASK / CONSTRUCT
    (C04_spec_ok_model_partial).  Not covered by a proof: sub-SELECT and DISTINCT
    inside a pattern (the solutions of a projection forget the context, the
-   push-down invariant does not hold for them as stated), EXISTS, and filters
-   that can raise errors; there the agreement outside the trigger regions is
-   supported by the correspondence runs only. *)
+   push-down invariant does not hold for them as stated) and EXISTS; there the
+   agreement outside the trigger regions is supported by the correspondence runs
+   only. *)
 From RV Require Import Sparql.Tie.
 
 (* the top-down BGP evaluation under ANY context, for ANY order of the triple
@@ -83,19 +85,17 @@ Proof. exact df_sound. Qed.
 Print Assumptions C04_df_sound.
 
 (* C04_pushdown: on the fragment [frag] -
-     BGP; Union; Values;
+     BGP; Union; Values; Graph (IRI or variable);
      Join: lazy, or hash when [hash_ok] (= negation of the trigger of F-C04-3);
-     LeftJoin when [leftjoin_ok]: no filter or an error-free one over variables the
-       two sides certainly bind and the context cannot bind (neg. of F-C04-5), and
-       p1._vars covers what the left side may bind and names no context variable
-       the left side does not certainly bind (neg. of F-C04-6);
+     LeftJoin when [leftjoin_ok]: the filter names no context variable that its
+       sides may bind (= neg. of F-C04-5), p1._vars covers what the left side may
+       bind and names no context variable the left side does not certainly bind
+       (= neg. of F-C04-6);
      Minus when [minus_ok] (= negation of the trigger of F-C04-2);
-     Extend when [extend_ok]: the target is new (neg. of F-C04-1), the expression
-       an atom or error-free, over certainly bound variables listed in _vars;
-     Graph when the name is a graph of the dataset / the variable cannot be bound
-       from outside, or the pattern needs a triple (= neg. of F-C04-11);
-     Filter over error-free expressions whose variables the filter's own group
-       certainly binds and rdflib's _vars lists -
+     Extend when [extend_ok]: the target is new (= neg. of F-C04-1);
+     Filter / the expressions of Extend and LeftJoin: [expr_ok] (no EXISTS,
+       comparisons = and != with an IRI constant: no literal-kind question,
+       F-C04-9; errors allowed) and [vis_ok] (= neg. of F-C04-7) -
    for EVERY incoming context whose variables are among [pushed]:
    top-down = bottom-up restricted to the context *)
 Theorem C04_pushdown : forall ds, graphs_nodup ds ->
